@@ -57,9 +57,76 @@ fn prefix<const K: usize>() {
     }
 }
 
+
+/// Decomposed form of the two parsing clauses, for token counts where running both real entries in
+/// one query is too large: (i) here: the real *permissive* entry (the one `parse_locale` calls) on K
+/// symbolic subtags equals the reference permissive parse - same identifier, same number of subtags
+/// left for the extension parser; (ii) `c13_ref_lemma_K`: inside the reference, the permissive parse
+/// equals the strict parse of the consumed prefix, and a strict success is a permissive success with
+/// nothing left; (iii) C02: the real strict entry equals the reference strict parse on every token
+/// sequence.  (i)+(ii)+(iii) give both clauses by transitivity through the reference.
+fn permissive<const K: usize>() {
+    let toks: [Tok; K] = h::toks9();
+    h::note_toks(&toks);
+    let (want, consumed) = spec::parse_langid(&toks, K, true);
+    let (got, left) = h::parse_tokens_rest(&toks, true);
+    cover!(got.is_ok() && left == K - 1);
+    cover!(got.is_ok() && left == 0);
+    cover!(got.is_err());
+    match (&got, &want) {
+        (Ok(li), Ok(m)) => {
+            assert!(h::langid_is(li, m), "permissive entry: identifier equals the reference parse of the consumed prefix");
+            assert!(left == K - consumed, "permissive entry: leaves exactly the subtags that cannot belong to the language identifier");
+        }
+        (Err(_), Err(_)) => {}
+        (Ok(_), Err(_)) => assert!(false, "permissive entry accepted an input whose first subtag is not a language"),
+        (Err(_), Ok(_)) => assert!(false, "permissive entry rejected an input that starts with a language identifier"),
+    }
+    core::mem::forget(got);
+}
+
+/// (ii): a statement about the reference alone (no library code), decided over the same token space
+fn ref_lemma<const K: usize>() {
+    let toks: [Tok; K] = h::toks9();
+    let inf = spec::infos(&toks);
+    let (perm, c) = spec::parse_langid_info(&inf, 0, K, true);
+    let (strict_all, _) = spec::parse_langid_info(&inf, 0, K, false);
+    cover!(perm.is_ok() && c < K);
+    cover!(strict_all.is_ok());
+    if let Ok(pm) = &perm {
+        let (strict_prefix, c2) = spec::parse_langid_info(&inf, 0, c, false);
+        match &strict_prefix {
+            Ok(sm) => {
+                assert!(spec::langid_eq(sm, pm) && sm.lang_und == pm.lang_und, "reference: permissive parse == strict parse of the consumed prefix");
+                assert!(c2 == c);
+            }
+            Err(_) => assert!(false, "reference: the consumed prefix is itself a language identifier"),
+        }
+    }
+    if let Ok(sm) = &strict_all {
+        match &perm {
+            Ok(pm) => {
+                assert!(spec::langid_eq(sm, pm) && c == K, "reference: a strict success is a permissive success with nothing left");
+            }
+            Err(_) => assert!(false),
+        }
+    }
+}
+
 /// `Locale::from_bytes` vs `LanguageIdentifier::from_bytes` on the same bytes (the real glue)
 fn glue<const L: usize>(pat: &[u8; L]) {
+    glue_opt(pat, false)
+}
+/// `nosep`: the symbolic positions range over every byte except the two separators (one subtag)
+fn glue_opt<const L: usize>(pat: &[u8; L], nosep: bool) {
     let buf = crate::c02::sep_frame(pat);
+    if nosep {
+        let mut i = 0;
+        while i < L {
+            k::assume(pat[i] != b'?' || !spec::is_sep(buf[i]));
+            i += 1;
+        }
+    }
     #[cfg(not(kani))]
     eprintln!("INPUT bytes={:?}", String::from_utf8_lossy(&buf));
     let a = LanguageIdentifier::from_bytes(&buf);
@@ -83,6 +150,13 @@ proofs! {
 [push, sortv, boxed] fn c13_superset_1() { superset::<1>() }
 [push, sortv, boxed] fn c13_superset_2() { superset::<2>() }
 [push, sortv, boxed] fn c13_superset_3() { superset::<3>() }
+[push, sortv, boxed] fn c13_permissive_1() { permissive::<1>() }
+[push, sortv, boxed] fn c13_permissive_2() { permissive::<2>() }
+[push, sortv, boxed] fn c13_permissive_3() { permissive::<3>() }
+[push, sortv, boxed] fn c13_permissive_4() { permissive::<4>() }
+[] fn c13_ref_lemma_2() { ref_lemma::<2>() }
+[] fn c13_ref_lemma_3() { ref_lemma::<3>() }
+[] fn c13_ref_lemma_4() { ref_lemma::<4>() }
 [push, sortv, boxed] fn c13_prefix_2() { prefix::<2>() }
 [push, sortv, boxed] fn c13_prefix_3() { prefix::<3>() }
 [push, sortt, sortv, boxed] fn c13_extmap_exhausted() {
@@ -101,6 +175,10 @@ proofs! {
 }
 [push, sortt, sortv, boxed] fn c13_locale_glue_en_us() { glue(b"en?US") }
 [push, sortt, sortv, boxed] fn c13_locale_glue_en_x_ab() { glue(b"en?x?ab") }
+// symbolic language (every 2- and 3-byte string), through the real parse_locale glue
+[push, sortt, sortv, boxed] fn c13_locale_glue_lang2() { glue_opt(b"??", true) }
+[push, sortt, sortv, boxed] fn c13_locale_glue_lang3() { glue_opt(b"???", true) }
+[push, sortt, sortv, boxed] fn c13_locale_glue_lang2_us() { glue_opt(b"??-US", true) }
 
 // conversions
 [] fn c13_conversions() {
